@@ -103,8 +103,8 @@ func realCases(run *obs.Run, enc bool) []realCase {
 		}
 	}
 	segs := []string{fk.SegOne, fk.SegRandom, fk.SegAligned, fk.SegMiB, fk.SegAround, fk.SegFeed, fk.SegFeedEOF, fk.SegRandom}
-	maxRand := run.N(6<<20, 48<<20)
-	for i := 0; i < run.N(24, 64); i++ {
+	maxRand := run.N(6<<20, 32<<20)
+	for i := 0; i < run.N(24, 40); i++ {
 		cs = append(cs, realCase{ID: fmt.Sprintf("rnd%d/%s", i, segs[i%len(segs)]), Size: -1, Seg: segs[i%len(segs)], Kind: fk.KindPRF, Encrypt: enc, MaxRand: maxRand})
 	}
 	return cs
@@ -241,16 +241,25 @@ func pickLen(rng *rand.Rand, maxBig int) int {
 // walk performs a Seek/Read walk.
 func (r *reader) walk(rng *rand.Rand, steps int, maxLen int) {
 	pos := int64(0) // model of the joiner's offset: the joiner is fresh or was just read to a known position
-	if p, err := r.j.Seek(0, io.SeekStart); err != nil || p != 0 {
-		r.viol("seek-position", fmt.Sprintf("Seek(0, start) = %d, %v", p, err), nil)
+	p0, err := r.j.Seek(0, io.SeekStart)
+	if err != nil {
+		r.run.Stat("seek_errors", 1) // the statement lets a seek report an error
 		return
 	}
+	if p0 != 0 {
+		r.viol("seek-position", fmt.Sprintf("Seek(0, start) returned %d", p0), nil)
+		return
+	}
+	known := true // whether the model knows the joiner's position (not after a rejected seek)
 	for s := 0; s < steps; s++ {
 		target := r.pickOffset(rng)
 		if target > r.size {
 			target = r.size
 		}
 		whence := rng.Intn(3)
+		if !known && whence == io.SeekCurrent {
+			whence = io.SeekStart
+		}
 		var arg int64
 		switch whence {
 		case io.SeekStart:
@@ -265,8 +274,10 @@ func (r *reader) walk(rng *rand.Rand, steps int, maxLen int) {
 		if err != nil {
 			// the statement lets a seek report an error; nothing was promised about reads then
 			r.run.Stat("seek_errors", 1)
+			known = false
 			continue
 		}
+		known = true
 		r.run.Stat("seeks_ok", 1)
 		if p != target {
 			r.viol("seek-position", fmt.Sprintf("Seek(%d, whence %d) from %d on a %d-byte file returned %d, want %d", arg, whence, pos, r.size, p, target), ex)
@@ -321,7 +332,7 @@ func runReal(t *testing.T, enc bool) {
 		"the store copies chunk data on Put, as localstore does",
 		"write buffers are overwritten by the caller after each Write returns (io.Writer contract)")
 	ctx := context.Background()
-	nReads := run.N(24, 60)
+	nReads := run.N(24, 40)
 	for _, rc := range realCases(run, enc) {
 		c := run.Begin(rc.ID, rc)
 		if c == nil {
